@@ -306,6 +306,8 @@ func (o EOp) Line() string {
 		return fmt.Sprintf("dist-rmf %s %s %d %s", o.Persist, sp, o.FI, proto.EncRule(o.Vals))
 	case "dist-clear":
 		return "dist-clear " + o.Persist
+	case "dist-updf":
+		return strings.TrimRight(fmt.Sprintf("dist-updf %s %s %d %s", o.Persist, sp, o.FI, proto.EncRule(o.Vals)), " ") + " || " + proto.EncRules(o.News)
 	case "dist-upd":
 		return "dist-upd " + o.Persist + " " + sp + " " + proto.EncRule(o.Rule) + " | " + proto.EncRule(o.New)
 	case "dist-upds":
@@ -674,6 +676,9 @@ func (s *Sess) execInner(o EOp) (obs string) {
 		return fmt.Sprintf("%v E %d", ok, errBit(err))
 	case "dist-upds":
 		ok, err := s.D.UpdatePoliciesSelf(persistFn(o.Persist), o.Sec, o.PType, s.hand(o, o.Rules), s.hand(o, o.News))
+		return fmt.Sprintf("%v E %d", ok, errBit(err))
+	case "dist-updf":
+		ok, err := s.D.UpdateFilteredPoliciesSelf(persistFn(o.Persist), o.Sec, o.PType, s.hand(o, o.News), o.FI, o.Vals...)
 		return fmt.Sprintf("%v E %d", ok, errBit(err))
 	case "savefa":
 		err := e.SavePolicy()
